@@ -14,11 +14,15 @@ import json
 import os
 import random
 import re
+import shutil
+import subprocess
 
 import vlib
 
 LEVEL = "model_checking"
-DEVS = ["ToFixedSetsStatic", "CounterIsStatic", "TypeIdByFirstUse", "AddressInOutput"]
+CODE_DEVS = ["ToFixedSetsStatic", "CounterIsStatic", "TypeIdByFirstUse", "AddressInOutput"]      # deviations of the pinned snapshot
+DEVS = CODE_DEVS + ["ObjectHashIsAddress", "ExtBufferIsStatic"]                                   # + regressions the probes must notice
+EXT_ENV = {}        # LD_LIBRARY_PATH of the driver processes: where the test extension isoext lives
 INVS = ("InvNonInterferenceAfter", "InvNonInterferenceBeside", "InvDeterministic")
 
 # ---------------------------------------------------------------------------------------------
@@ -49,7 +53,32 @@ RENDER = {
                 'gA = "a"; gB = "b"; gC = "c"; diag_log allVariables missionNamespace;',
                 'diag_log str createHashMapFromArray [["k1","x"],["k2","y"],[["a","b"],"z"]];'],
     "objstr": ["diag_log str createGroup west;"],
+    # a hashmap keyed by several objects created here, enumerated; only names / values are printed, never an address
+    "objmap": ['configparse__ "class CfgVehicles { class Dummy {}; };"; private _hm = createHashMap; for "_i" from 1 to 12 do '
+               '{ private _o = "Dummy" createVehicle [0,0,0]; _o setVehicleVarName format ["o%1", _i]; _hm set [_o, format ["v%1", _i]]; }; '
+               'diag_log (keys _hm); diag_log ((keys _hm) apply {_hm get _x});',
+               'configparse__ "class CfgVehicles { class Dummy {}; };"; private _hm = createHashMap; { private _o = "Dummy" createVehicle [0,0,0]; '
+               '_o setVehicleVarName _x; _hm set [_o, _x]; } forEach ["a","b","c","d","e","f","g"]; diag_log str _hm;',
+               'private _hm = createHashMap; { _hm set [createGroup (_x select 0), _x select 1]; } forEach [[west,"g1"],[east,"g2"],[civilian,"g3"],[resistance,"g4"],'
+               '[west,"g5"],[east,"g6"],[civilian,"g7"],[resistance,"g8"],[west,"g9"]]; diag_log ((keys _hm) apply {_hm get _x});'],
+    # callExtension of the stateless test extension harness/C20_isoext.cc: answered / unanswered calls
+    "extecho": ['diag_log ["isoext" callExtension "echo:answer %d"];', 'diag_log ("isoext" callExtension ["echo", ["answer %d", "w"]]);'],
+    "extquiet": ['diag_log ["isoext" callExtension "log:x"];', 'diag_log ("isoext" callExtension ["log", ["x"]]);', 'diag_log ["isoext" callExtension "part:ab"];'],
 }
+
+
+def build_extension(wdir):
+    """the test extension, built from harness/C20_isoext.cc with the system compiler (nothing else is needed)"""
+    d = os.path.join(wdir, "ext")
+    os.makedirs(d, exist_ok=True)
+    src = os.path.join(vlib.ROOT, "harness", "C20_isoext.cc")
+    out = os.path.join(d, "isoext_x64.so")
+    r = subprocess.run(["g++", "-std=c++17", "-O1", "-shared", "-fPIC", "-o", out, src], stdout=subprocess.PIPE, stderr=subprocess.STDOUT, text=True)
+    if r.returncode != 0:
+        raise vlib.MachineryError("cannot build the test extension: " + r.stdout[-2000:])
+    shutil.copyfile(out, os.path.join(d, "isoext.so"))      # the name without the 64-bit suffix, should the build not append it
+    old = os.environ.get("LD_LIBRARY_PATH")
+    EXT_ENV["LD_LIBRARY_PATH"] = d + (":" + old if old else "")
 
 
 def kind_name(s):
@@ -101,8 +130,10 @@ def design_check(rep, tier):
     for d, inv in [("ToFixedSetsStatic", "InvNonInterferenceAfter"), ("ToFixedSetsStatic", "InvNonInterferenceBeside"),
                    ("CounterIsStatic", "InvNonInterferenceAfter"), ("CounterIsStatic", "InvNonInterferenceBeside"),
                    ("TypeIdByFirstUse", "InvNonInterferenceAfter"), ("TypeIdByFirstUse", "InvNonInterferenceBeside"),
-                   ("AddressInOutput", "InvDeterministic"), ("AddressInOutput", "InvNonInterferenceAfter")]:
-        jobs.append(("dev_%s_%s" % (d, inv[3:]), dict(dev=(d,), invs=(inv,), maxp=2, maxq=2), inv, "deviation %s (the code) violates %s" % (d, inv[3:])))
+                   ("AddressInOutput", "InvDeterministic"), ("AddressInOutput", "InvNonInterferenceAfter"),
+                   ("ObjectHashIsAddress", "InvDeterministic"), ("ObjectHashIsAddress", "InvNonInterferenceAfter"),
+                   ("ExtBufferIsStatic", "InvNonInterferenceAfter"), ("ExtBufferIsStatic", "InvNonInterferenceBeside")]:
+        jobs.append(("dev_%s_%s" % (d, inv[3:]), dict(dev=(d,), invs=(inv,), maxp=2, maxq=2), inv, "deviation %s (%s) violates %s" % (d, "the code" if d in CODE_DEVS else "a regression", inv[3:])))
     if tier != "quick":
         jobs.append(("ideal4", dict(maxp=4, maxq=4), None, "Isolation_MC ideal: P, Q <= 4 statements"))
 
@@ -155,7 +186,7 @@ def trace_selftest(rep, wdir):
 def generate(rep, tier, seed, rng):
     """abstract cases [{P, Q, sched, setting}] from TLC: exhaustive small bound + seeded random behaviours"""
     bound = (1, 1) if tier == "quick" else (2, 1)
-    g = vlib.tlc("Isolation_MC", mc_cfg("gen_bfs", dev=DEVS, maxp=bound[0], maxq=bound[1], emit=True, view=False, invs=(), addrs="{100}"),
+    g = vlib.tlc("Isolation_MC", mc_cfg("gen_bfs", dev=CODE_DEVS, maxp=bound[0], maxq=bound[1], emit=True, view=False, invs=(), addrs="{100}"),
                  workers=vlib.NCPU, timeout_s=1500, xmx="8g", tag="c20_gen_bfs")
     if not g.ok:
         raise vlib.MachineryError("Isolation generator failed: %s" % (g.error or g.violated))
@@ -268,11 +299,11 @@ def execute(groups, wdir, tag, with_alone2=True):
         first.extend(drv(c) for c in g["cases"])
         if with_alone2:
             second.append(drv(g["alone2"]))
-    ev = vlib.run_driver("iso", first, wdir, kind="rel", timeout_s=20, tag=tag)
+    ev = vlib.run_driver("iso", first, wdir, kind="rel", timeout_s=20, tag=tag, env=EXT_ENV)
     by = vlib.events_by_case(ev)
     if second:
         # a second, separately started driver process: really another fresh process (other address space)
-        ev2 = vlib.run_driver("iso", second, wdir, kind="rel", timeout_s=20, tag=tag + "b")
+        ev2 = vlib.run_driver("iso", second, wdir, kind="rel", timeout_s=20, tag=tag + "b", env=EXT_ENV)
         by.update(vlib.events_by_case(ev2))
     execs = []
     for g in groups:
@@ -409,12 +440,15 @@ def run(rep, tier, seed, replay):
     rng = random.Random(seed)
     vlib.build("rel")
     wdir = vlib.workdir("C20")
+    build_extension(wdir)
     rep.assumptions += [
         "output of a program = every message its VM's logger receives (level, code, position, text; byte-wise) plus the result of each run, attributed to the statement that was running",
         "a statement = one script (preprocess, parse, run to completion) on the program's VM; the VM is created by the program's first step with the full operator set (Q also with the basic set, like sqfvm_create_instance_basic)",
         "alone = fresh forked process; the second alone run comes from a separately started driver process (other address space layout)",
         "beside: the two VMs run on two threads, a token forces the schedule statement by statement (sampled cases: VM instruction by instruction through the H3 observer); steps are atomic, so data races on the statics as such are not exercised (DESIGN.md 8)",
-        "time / random / diag_tickTime style operators are excluded by the property; callExtension's static buffer and the side-relation table are not reachable without extensions / setFriend (not implemented)",
+        "time / random / diag_tickTime style operators are excluded by the property; the side-relation table is not reachable (setFriend is not implemented)",
+        "callExtension is exercised with the stateless test extension harness/C20_isoext.cc (built at run time, found through LD_LIBRARY_PATH): answers are functions of the call's arguments, unanswered and short unterminated answers included",
+        "object-keyed hashmaps are enumerated over named objects / values only, so that the known address prefix of str (open finding) stays out of these probes",
         "probes print strings only, except the number-formatting probes, so that a difference names the state it comes from",
     ]
     if replay:
